@@ -373,8 +373,9 @@ def part_E(ck, rng, n):
         u0v = [u0] if dims[0] == 1 else [rfrac(rng, -3, 3) for _ in range(dims[0])]
         scalar = all(d == 1 for d in dims) and not imex
         finter = (i % 4 == 1)
+        cu = (i % 2 == 1)          # do_coll_update: the end point is the quadrature u0 + dt sum w f + tau[-1] on every level
         cfg = dict(kind='IMEX' if imex else 'GI', levels=levels_cfg, num_procs=1, maxiter=1, restol=F(-1), dt=dt, predict_type=None, nsweeps=nsw,
-                   finter=finter, small_tables=24)
+                   finter=finter, small_tables=24, do_coll_update=cu)
         try:
             C = er.build_controller(cfg)
             set_exact_lagrange(C)
@@ -404,6 +405,37 @@ def part_E(ck, rng, n):
             ref = ref_cycle(lv, R, P, nsw, u0, finter) if scalar else None
         except (ZeroDivisionError, StopIteration):
             continue
+        # ---- FAS consistency of the END POINT (seeded C10-h): restrict the final state down the hierarchy; right after a restriction
+        #      the coarse end point (with its tau correction of the whole interval when do_coll_update is set, u_M otherwise) is the
+        #      space-restricted fine end point, exactly (Coq: C10_coarse_end_point_is_restricted)
+        try:
+            for k in range(nl - 1):
+                S.transfer(source=S.levels[k], target=S.levels[k + 1])
+            ends = []
+            for L in S.levels:
+                L.sweep.compute_end_point()
+                ends.append(list(L.uend.v))
+            for k in range(nl - 1):
+                # hypotheses of the theorem, checked on the real objects: weights = last row of Q on both levels, last row of
+                # Rcoll = unit vector of the last fine node
+                hyp = (all([F(x) for x in S.levels[j].sweep.coll.weights] == [F(x) for x in lv[j]['Q'][-1][1:]] for j in (k, k + 1))
+                       and [F(x) for x in R[k][-1]] == [F(0)] * (lv[k]['M'] - 1) + [F(1)])
+                if not hyp:
+                    ck.cov['end_point_fas_hypotheses_not_met'] = ck.cov.get('end_point_fas_hypotheses_not_met', 0) + 1
+                    continue
+                ck.cov['end_point_fas_checked'] = ck.cov.get('end_point_fas_checked', 0) + 1
+                want = [sum((F(RS[k][a][b]) * ends[k][b] for b in range(dims[k])), F(0)) for a in range(dims[k + 1])]
+                ck.traces += 1
+                if ends[k + 1] != want:
+                    dev = max(abs(a - b) for a, b in zip(ends[k + 1], want))
+                    ck.violation('right after restriction the end point of coarse level %d is not the restricted end point of level %d (deviation %.3e, do_coll_update=%s)'
+                                 % (k + 1, k, float(dev), cu),
+                                 dict(levels=nl, nodes=nn, dims=dims, imex=imex, do_coll_update=cu, QI=[x['QI'] for x in levels_cfg], dt=str(dt), u0=[str(x) for x in u0v],
+                                      level=k + 1, coarse_end=[str(x) for x in ends[k + 1]], restricted_fine_end=[str(x) for x in want]),
+                                 match={'kind': 'end_point_fas', 'levels': nl, 'do_coll_update': cu})
+                    break
+        except (ZeroDivisionError, StopIteration):
+            pass
         post = [e for e in log if e['cb'] == 'post_step'][0]
         ck.case(key=('mgrit', nl, tuple(nn), tuple(nsw), tuple(l['QI'] for l in levels_cfg), tuple(dims), finter, imex), nontrivial=True,
                 sample=dict(levels=nl, nodes=nn, nsweeps=nsw, dims=dims, finter=finter))
@@ -563,8 +595,8 @@ def run(ck):
     thorough = ck.tier == 'thorough'
     ck.rule = ('A/B: seeded level pairs (node counts, quadrature types, space dims, finter, inherited tau, exact-rational vs float-image Rcoll/Pcoll); '
                'C: exact 2-3 level controller iterations started at the collocation solution; D: float transfer classes; distinct = configuration tuple')
-    ck.check_props(required=['C10_coarse_defect_is_restricted_fine_defect', 'C10_prolong_zero_correction', 'C10_two_level_cycle_fixed_point',
-                             'C10_multilevel_cycle_fixed_point'])
+    ck.check_props(required=['C10_coarse_defect_is_restricted_fine_defect', 'C10_coarse_end_point_is_restricted', 'C10_prolong_zero_correction',
+                             'C10_two_level_cycle_fixed_point', 'C10_multilevel_cycle_fixed_point'])
     cases = part_AB(ck, rng, 1500 if thorough else 60)
     ck.log('A/B: %d real restrict/prolong cases run' % len(cases))
     chunk = 5
